@@ -3,7 +3,10 @@ package sim
 import (
 	"fmt"
 	"math"
+	"math/big"
 	"strings"
+
+	"dsim/ref"
 )
 
 // Profile describes how programs are generated for one property.
@@ -532,7 +535,9 @@ func genP10(g *Gen, p *Program) {
 // boundDec returns a Decimal near a bound of int32/int64/uint32/uint64 or
 // just below an integer.
 func (g *Gen) boundDec() string {
-	bounds := []string{"2147483647", "2147483648", "4294967295", "4294967296", "9223372036854775807", "9223372036854775808", "18446744073709551615", "18446744073709551616", "0", "1"}
+	bounds := []string{"2147483647", "2147483648", "4294967295", "4294967296", "9223372036854775807", "9223372036854775808", "18446744073709551615", "18446744073709551616", "0", "1",
+		"1000000000", "10000000000", "1000000000000000000", "10000000000000000000", "100000000000000000000", "2000000000", "4000000000", "5000000000",
+		"9000000000000000000", "18000000000000000000", "20000000000000000000", "9300000000000000000", "18446744073709551610", "9223372036854775800"}
 	b := bounds[g.R.N(len(bounds))]
 	s := b
 	switch g.R.N(5) {
@@ -548,6 +553,39 @@ func (g *Gen) boundDec() string {
 	if g.R.P(1, 2) {
 		s = "-" + s
 	}
+	if g.R.P(1, 3) {
+		return g.cohortMember(s)
+	}
 	lit := parseLitForGen(s)
 	return lit
+}
+
+// cohortMember returns a random encoding (coefficient with fewer or more
+// trailing zeros, exponent adjusted) of the value a literal denotes.
+func (g *Gen) cohortMember(lit string) string {
+	n := NumOf(ParseHex(parseLitForGen(lit)))
+	if n.Class != ref.Finite || n.Coef.Sign() == 0 {
+		return Hex(DecOf(n))
+	}
+	c := new(big.Int).Set(n.Coef)
+	e := n.Exp
+	// strip all trailing zeros, then put some back
+	for {
+		q, r := new(big.Int).QuoRem(c, big.NewInt(10), new(big.Int))
+		if r.Sign() != 0 {
+			break
+		}
+		c, e = q, e+1
+	}
+	for k := g.R.N(36); k > 0; k-- {
+		t := new(big.Int).Mul(c, big.NewInt(10))
+		if t.Cmp(ref.CMax) > 0 || e-1 < ref.MinExp {
+			break
+		}
+		c, e = t, e-1
+	}
+	if e > ref.MaxExp {
+		return Hex(DecOf(n))
+	}
+	return Hex(DecOf(ref.Num{Neg: n.Neg, Coef: c, Exp: e}))
 }
